@@ -109,7 +109,9 @@ func (e *Engine) buildQuery(p *OblPath, withModel bool, uses []string) string {
 		}
 	}
 	b.WriteString("(set-option :produce-models true)\n(set-logic ALL)\n")
+	e.S.NoAxioms = p.Goal == "false" && !withModel
 	b.WriteString(e.S.Relevant(body.String() + mt))
+	e.S.NoAxioms = false
 	b.WriteString(body.String())
 	b.WriteString("(check-sat)\n")
 	b.WriteString(mt)
@@ -161,7 +163,10 @@ func (e *Engine) SolveUnit(unitName string, uses []string) []*OblResult {
 	for _, name := range e.oblOrder {
 		o := e.obls[name]
 		for i, p := range o.Paths {
-			jobs = append(jobs, &pathJob{obl: o, idx: i, query: e.buildQuery(p, true, uses)})
+			if o.Expect == "sat" && i > 0 {
+				break // covers: one reachable path is enough; the others are tried lazily below
+			}
+			jobs = append(jobs, &pathJob{obl: o, idx: i, query: e.buildQuery(p, o.Expect != "sat", uses)})
 		}
 	}
 	var wg sync.WaitGroup
@@ -202,7 +207,21 @@ func (e *Engine) SolveUnit(unitName string, uses []string) []*OblResult {
 					r.Status = "cover-unknown"
 				}
 			}
-			if len(js) == 0 {
+			if r.Status != "cover-ok" {
+				for i := 1; i < len(o.Paths); i++ {
+					res := solveQuery(e.buildQuery(o.Paths[i], false, uses), quickTimeout)
+					r.Time += res.Time
+					if res.Status == "sat" {
+						r.Status = "cover-ok"
+						r.Solver = res.Solver
+						break
+					}
+					if res.Status != "unsat" {
+						r.Status = "cover-unknown"
+					}
+				}
+			}
+			if len(o.Paths) == 0 {
 				r.Status = "cover-vacuous"
 			}
 			out = append(out, r)
@@ -262,7 +281,7 @@ func (e *Engine) prettyModel(m map[string]string) map[string]string {
 	for _, in := range e.inputs {
 		for k, v := range m {
 			if strings.Contains(k, in.Term) {
-				out[strings.ReplaceAll(k, in.Term, in.Name)] = v
+				out[strings.ReplaceAll(k, in.Term, in.Name)] = truncate(strings.Join(strings.Fields(v), " "), 300)
 			}
 		}
 	}
